@@ -1,10 +1,14 @@
 import Cx.Proofs.Utf8
 import Cx.Proofs.Nfa
+import Cx.Proofs.Utf8Range
+import Cx.Proofs.Utf8RangeNfa
+import Cx.Proofs.NfaSpan
+import Cx.Proofs.ClassCheck
 /-
   C15 — compiled byte automata recognise exactly the UTF-8 of the intended runes.
 
   The per-class verdict is computed by a verified checker run by cxdrv on the NFA dumped from the code: for EVERY
-  code point r it decides `Accepts N (encode r) 0 |encode r|` with `Cx.Nfa.acceptsSpan` and compares with membership
+  code point r it decides `Accepts N (encode r) 0 |encode r|` with `Cx.Nfa.accWhole` (proved: `accWhole_iff`) and compares with membership
   in the class's rune ranges, and for every ill-formed string of ≤ 3 bytes over boundary bytes it compares with Go's
   rule (one invalid byte = U+FFFD, width 1).  The theorems below are what makes that enumeration a complete case
   analysis: decoding inverts encoding for all scalar values, a decode step consumes either the encoding of the rune
@@ -30,6 +34,81 @@ theorem C15_decode_is_encoding_or_single_byte (h : Bytes) (i : Nat) (hb : ∀ k,
 
 theorem C15_decode_scalar (h : Bytes) (i : Nat) (hb : ∀ k, h.at k < 256) : isScalar (decodeAt h i).1 :=
   decode_scalar h i hb
+
+/-! #### the checker itself (`cxdrv classcheck` = `ClassCheck.classCheck`, Cx/Model/ClassCheck.lean) -/
+
+/-- what the answer `ok` of the per-class checker means, about the path relation of the dumped automaton: for EVERY scalar
+    value r of [lo, hi], the whole of `encode r` is accepted from the anchored start ⇔ r is in the class; and when
+    128 ≤ hi, every byte string of length 1 and 2 and every length-3 string over the boundary bytes is accepted ⇔ Go's
+    DecodeRune consumes it entirely as one rune of the class.  No hypothesis on automaton, ranges or bounds. -/
+theorem C15_class_checker_sound (N : Nfa.NFA) (ranges : List (Nat × Nat)) (lo hi : Nat)
+    (h : ClassCheck.classCheck N ranges lo hi = "ok") :
+    (∀ r, lo ≤ r → r ≤ hi → isScalar r →
+      (Nfa.Accepts N (ofList (encode r)) 0 (encode r).length ↔ GoRef.inRanges r ranges = true)) ∧
+    (128 ≤ hi →
+      (∀ a, a < 256 → (Nfa.Accepts N #[a] 0 1 ↔
+        ((decodeAt #[a] 0).2 = 1 ∧ GoRef.inRanges (decodeAt #[a] 0).1 ranges = true))) ∧
+      (∀ a b, a < 256 → b < 256 → (Nfa.Accepts N #[a, b] 0 2 ↔
+        ((decodeAt #[a, b] 0).2 = 2 ∧ GoRef.inRanges (decodeAt #[a, b] 0).1 ranges = true))) ∧
+      (∀ a b c, a ∈ ClassCheck.boundaryBytes → b ∈ ClassCheck.boundaryBytes → c ∈ ClassCheck.boundaryBytes →
+        (Nfa.Accepts N #[a, b, c] 0 3 ↔
+          ((decodeAt #[a, b, c] 0).2 = 3 ∧ GoRef.inRanges (decodeAt #[a, b, c] 0).1 ranges = true)))) :=
+  ClassCheck.classCheck_ok N ranges lo hi h
+
+/-- … and it is exact: `ok` is answered iff both properties hold, so any other answer (`fail:rune:<r>:<acc>` with the FIRST
+    differing rune, `fail:bytes:<hex>`) reports a genuine difference (`ClassCheck.classCheck_fail`) -/
+theorem C15_class_checker_exact (N : Nfa.NFA) (ranges : List (Nat × Nat)) (lo hi : Nat) :
+    ClassCheck.classCheck N ranges lo hi = "ok" ↔
+      (ClassCheck.RunesOK N ranges lo hi ∧ (128 ≤ hi → ClassCheck.StringsOK N ranges)) :=
+  ClassCheck.classCheck_ok_iff N ranges lo hi
+
+/-- the acceptance test the checker runs on every string decides the path relation -/
+theorem C15_class_checker_acceptance (N : Nfa.NFA) (bs : Bytes) : Nfa.accWhole N bs = true ↔ Nfa.Accepts N bs 0 bs.size :=
+  Nfa.accWhole_iff N bs
+
+
+/-! #### the class compiler itself (`nfa/compile.go`: compileCharClass → compileUnicodeClass / compileUnicodeClassLarge →
+compileUTF8Range, compileUTF8{1,2,3,4}ByteRange, utf84Split and the continuation-bound helpers), transliterated in
+`Cx/Model/Utf8Range.lean` as the list of byte-range sequences it emits.  The check compares, for every class instance, the
+sequences along all paths of the NFA the real compiler produced with the model's output LITERALLY (`utf8range nfa`), so the
+theorems below then hold for that automaton and EVERY byte string — the quantifier over runes and over ill-formed input is
+discharged by proof, no longer by enumeration. -/
+
+/-- one range, NO precondition on lo/hi: exactly the encodings of the scalar values in [lo, hi]
+    (no overlong form, no surrogate, nothing above U+10FFFF, whatever the range) -/
+theorem C15_utf8_range_exact (lo hi : Nat) (bs : List Nat) :
+    Utf8Range.accepts (Utf8Range.compileUTF8Range lo hi) bs = true ↔ ∃ r, lo ≤ r ∧ r ≤ hi ∧ isScalar r ∧ bs = encode r :=
+  Utf8Range.compileUTF8Range_exact lo hi bs
+
+/-- a whole class (all three compilation paths): what is accepted, exactly — the encodings of its scalar members, plus the
+    two deviations named in the statement (a lone byte ≥ 0x80 when the class contains every non-ASCII rune: deliberate, it
+    is how `[^,]` matches an invalid byte as regexp does; a raw surrogate encoding on the small-class path: a defect) -/
+theorem C15_class_language (ranges : List (Nat × Nat)) (hwf : Utf8Range.wfRanges ranges = true) (bs : List Nat) :
+    Utf8Range.accepts (Utf8Range.classSeqs ranges) bs = true ↔
+      (∃ r, Utf8Range.inR r ranges ∧ isScalar r ∧ bs = encode r) ∨
+      (Utf8Range.usesLarge ranges = true ∧ Utf8Range.coversAllNonASCII (Utf8Range.nonAsciiPart ranges) = true ∧
+        ∃ b, 0x80 ≤ b ∧ b ≤ 0xFF ∧ bs = [b]) ∨
+      (Utf8Range.usesSmall ranges = true ∧ ∃ r, Utf8Range.inR r ranges ∧ 0xD800 ≤ r ∧ r ≤ 0xDFFF ∧ bs = Utf8Range.enc3 r) :=
+  Utf8Range.classSeqs_exact ranges hwf bs
+
+/-- on classes where neither deviation applies (decidable `exactClass`, evaluated per instance): exactly the UTF-8 of the members -/
+theorem C15_class_exact (ranges : List (Nat × Nat)) (h : Utf8Range.exactClass ranges = true) (bs : List Nat) :
+    Utf8Range.accepts (Utf8Range.classSeqs ranges) bs = true ↔ ∃ r, isScalar r ∧ Utf8Range.inR r ranges ∧ bs = encode r :=
+  Utf8Range.classSeqs_exact_of_exactClass ranges h bs
+
+/-- transfer to the automaton dumped from the real compiler: if its paths are literally the model's sequences, then for
+    every haystack the anchored whole-input acceptance is membership of the decoded rune -/
+theorem C15_dumped_class_automaton_exact (N : Nfa.NFA) (ranges : List (Nat × Nat)) (hx : Utf8Range.exactClass ranges = true)
+    (hp : Utf8Range.pathsOf N = some (Utf8Range.classSeqs ranges)) (h : Bytes) :
+    Nfa.Accepts N h 0 h.size ↔ ∃ r, isScalar r ∧ Utf8Range.inR r ranges ∧ h.toList = encode r :=
+  Utf8Range.nfa_class_exact_of_exactClass N ranges hx hp h
+
+/-- the defect the theorem's third disjunct records: a class of at most 256 runes containing a surrogate accepts the
+    ill-formed bytes ED A0 80 (regexp never matches them with that class); confirmed on the real compiler -/
+theorem C15_small_class_surrogate_defect :
+    Utf8Range.wfRanges [(0xD7FF, 0xD800)] = true ∧
+    Utf8Range.accepts (Utf8Range.classSeqs [(0xD7FF, 0xD800)]) [0xED, 0xA0, 0x80] = true ∧
+    ¬ ∃ r, isScalar r ∧ [0xED, 0xA0, 0x80] = encode r := Utf8Range.small_class_surrogate_defect
 
 example : decodeAt #[0xE4, 0xB8, 0x96, 0x41] 0 = (0x4E16, 3) := by decide
 example : decodeAt #[0xED, 0xA0, 0x80] 0 = (0xFFFD, 1) := by decide   -- surrogate: ill-formed
